@@ -1,2 +1,61 @@
-(* C01 — placeholder while the proofs are being written. *)
-From DepsDev Require Import Lib.Base Semver.Version Semver.Compare.
+(* C01 — version comparison is a total preorder (SemVer family: Default, Cargo, Go, NPM,
+   NuGet, Composer).  PyPI, RubyGems and Maven are in C01_pypi.v, C01_gem.v, C01_maven.v.
+   Statements only. *)
+From DepsDev Require Import Lib.Base Lib.Order Semver.Version Semver.Compare
+  Semver.Generic_proofs Semver.Compare_proofs.
+
+(* For every system S, on ALL version structures without extension (whatever their numbers,
+   prerelease elements, build string: no well-formedness is needed), compare never fails
+   and coincides with a function that is reflexive, sign-antisymmetric, transitive and
+   congruent. *)
+Theorem C01_family : forall S, exists c : version -> version -> Z,
+  (forall a b, fam_version S a -> fam_version S b -> compare a b = Ok (c a b)) /\
+  cmp_laws (fam_version S) c.
+Proof. exact family_laws. Qed.
+Print Assumptions C01_family.
+
+(* Build metadata never changes the result. *)
+Theorem C01_family_build : forall S v b, fam_version S v -> compare v (with_build v b) = Ok 0%Z.
+Proof. exact family_build. Qed.
+Print Assumptions C01_family_build.
+
+(* The comparison is a function of the numbers and prerelease elements only (it cannot
+   depend on the original string, on userNumCount, on the isPrerelease flag, nor on any
+   earlier call: it is a Gallina function). *)
+Theorem C01_family_fields : forall S a a' b b',
+  v_num a = v_num a' -> v_pre a = v_pre a' -> v_num b = v_num b' -> v_pre b = v_pre b' ->
+  generic_compare S a b = generic_compare S a' b'.
+Proof. exact generic_compare_fields. Qed.
+Print Assumptions C01_family_fields.
+
+(* Non-vacuity: three concrete NPM structures (1.2.3-alpha.1, 1.2.3-alpha.01, 1.2.3+b)
+   satisfy the hypotheses and are ordered as SemVer says. *)
+Example C01_family_nonvacuous :
+  let mk pre build := {| v_sys := SNPM; v_user_num_count := 3; v_is_prerelease := false; v_str := [];
+                         v_num := [1; 2; 3]%Z; v_pre := pre; v_build := build; v_ext := NoExt |} in
+  let a := mk [[97; 108; 112; 104; 97]; [49]]%N [] in
+  let b := mk [[97; 108; 112; 104; 97]; [48; 49]]%N [] in
+  let c := mk [] [43; 98]%N in
+  fam_version SNPM a /\ fam_version SNPM b /\ fam_version SNPM c /\
+  compare a b = Ok 0%Z /\ compare a c = Ok (-1)%Z /\ compare c a = Ok 1%Z.
+Proof. vm_compute. repeat split; reflexivity. Qed.
+
+(* Consequently sorting a list of versions yields the same sequence of equivalence classes
+   whatever the input order (and whatever correct sorting algorithm is used): two sorted
+   lists that are permutations of each other compare equal position by position.
+   (Lib/SortClasses.v proves this for every comparator satisfying the four laws; it is
+   instantiated here for the SemVer family and applies verbatim to the comparators of
+   C01_pypi, C01_gem and C01_maven.) *)
+From Coq Require Import Permutation.
+From DepsDev Require Import Lib.SortClasses.
+Theorem C01_sort_classes : forall S (l1 l2 : list version),
+  Forall (fam_version S) l1 -> Forall (fam_version S) l2 -> Permutation l1 l2 ->
+  sorted (generic_compare S) l1 -> sorted (generic_compare S) l2 ->
+  Forall2 (fun a b => generic_compare S a b = 0%Z) l1 l2.
+Proof.
+  intros S l1 l2 P1 P2 HP S1 S2.
+  assert (L : cmp_laws (fam_version S) (generic_compare S)).
+  { apply core_laws. apply (core_weaken (fun _ => True) (fam_version S)); [auto | apply generic_compare_core]. }
+  exact (sorted_perm_classes (fam_version S) (generic_compare S) L l1 l2 P1 P2 HP S1 S2).
+Qed.
+Print Assumptions C01_sort_classes.
